@@ -162,7 +162,162 @@ def classify(d, groups, regnames=()):
     return None
 
 
+CORR = lambda: os.path.join(common.BUILD, "C20.corr.cases")
+
+
+def corr_ok(inp, impl, model, spec):
+    """(impl agrees with the model of the code, impl agrees with the specification)"""
+    m_ok = impl == model
+    if spec == "-":
+        return m_ok, True
+    if inp.startswith("symtab"):
+        sp, im = spec.split(" "), impl.split(" ")
+        return m_ok, len(sp) == len(im) and all(a == "*" or a == b for a, b in zip(sp, im))
+    return m_ok, impl == spec
+
+
+def corr_eval(c, inp, n=[0]):
+    """Run ONE correspondence case on the real code and on the model (used by the shrinker)."""
+    n[0] += 1
+    d = os.path.join(common.BUILD, "c20shrink")
+    os.makedirs(d, exist_ok=True)
+    rp = os.path.join(d, "in.json")
+    json.dump({"corr_input": inp}, open(rp, "w"))
+    exe = os.path.join(common.BUILD, "c20")
+    rc, out = common.sh([exe, "--seed", str(c.seed), "--tier", c.tier, "--out", os.path.join(d, "x.cases"),
+                         "--stats", os.path.join(d, "x.stats"), "--replay", rp], cwd=common.BUILD, timeout=120, env=common.env_go())
+    cf = os.path.join(d, "C20.corr.cases")
+    if rc != 0 or not os.path.exists(cf):
+        return None
+    rc, _, mexe = common.build_ocaml("C20")
+    if rc != 0:
+        return None
+    rc, _ = common.run_model(mexe, cf, os.path.join(d, "m.out"))
+    if rc != 0:
+        return None
+    for _, i2, impl, model, spec in common.iter_joined(cf, os.path.join(d, "m.out")):
+        return impl, model, spec
+    return None
+
+
+def corr_shrink(c, inp, want_spec_failure):
+    """Greedy removal of keys / builtin names / parameters while the disagreement persists."""
+    def fails(x):
+        for _ in range(2):      # a walk-order defect shows only in some runs
+            r = corr_eval(c, x)
+            if r is None:
+                return False
+            m_ok, s_ok = corr_ok(x, *r)
+            if (not s_ok) if want_spec_failure else (not m_ok):
+                return True
+        return False
+    toks = inp.split(" ")
+    kind = toks[0]
+    budget = 40
+    if kind == "ksort":
+        i = 1
+        while i < len(toks) and budget > 0 and len(toks) > 3:
+            cand = toks[:i] + toks[i + 1:]
+            budget -= 1
+            if fails(" ".join(cand)):
+                toks = cand
+            else:
+                i += 1
+    elif kind == "symtab":
+        f0, q0 = toks.index("F"), toks.index("Q")
+        head, fs, qs = toks[:f0 + 1], toks[f0 + 1:q0], toks[q0 + 1:]
+        i = 0
+        while i < len(fs) and budget > 0 and len(fs) > 2:
+            cand_f = fs[:i] + fs[i + 1:]
+            cand_q = [q for q in qs if q != fs[i]]
+            budget -= 1
+            if fails(" ".join(head + cand_f + ["Q"] + cand_q)):
+                fs, qs = cand_f, cand_q
+            else:
+                i += 1
+        toks = head + fs + ["Q"] + qs
+    return " ".join(toks)
+
+
+def unhex(t):
+    k = t.split("=")[0]
+    if k == "-":
+        return ""
+    try:
+        return bytes.fromhex(k).decode("utf-8", "backslashreplace")
+    except ValueError:
+        return t
+
+
+def correspondence(c):
+    """impl vs extracted model (Model/MapWalkKeys.v) vs specification on the streams of corr.go."""
+    cf = CORR()
+    if not os.path.exists(cf):
+        return
+    mout = c.model(cf)
+    if not mout:
+        return
+    n = agree = 0
+    spec_fail, model_fail = [], []
+    per = {}
+    for cid, inp, impl, model, spec in common.iter_joined(cf, mout):
+        n += 1
+        m_ok, s_ok = corr_ok(inp, impl, model, spec)
+        k = inp.split(" ", 1)[0]
+        per.setdefault(k, [0, 0])[0] += 1
+        if m_ok and s_ok:
+            agree += 1
+            per[k][1] += 1
+        elif not s_ok:
+            spec_fail.append((inp, impl, model, spec))
+        else:
+            model_fail.append((inp, impl, model, spec))
+    c.coverage.setdefault("corr", {})
+    c.coverage["corr"].update({"compared": n, "agree": agree, "per_stream_cases_agree": per,
+                               "spec_failures": len(spec_fail), "model_only_failures": len(model_fail)})
+    c.log("correspondence: %d cases, %d agree, %d differ from the specification, %d differ from the model only"
+          % (n, agree, len(spec_fail), len(model_fail)))
+    what = {"ksort": "zygo.GoToSexp(map[string]interface{}) -> jsonmsgp.go:makeSortedSlicesFromMap / KiSlice.Less: key order of the hash",
+            "symtab": "zygo.NewZlispWithFuncs(funcs): symbol numbers of the queried names (Q) for builtin names F",
+            "named": "check.go by-name call: arguments in declared order"}
+    seen = set()
+    for lst, spec_failure in ((spec_fail, True), (model_fail, False)):
+        lst.sort(key=lambda t: len(t[0]))
+        for inp, impl, model, spec in lst:
+            k = inp.split(" ", 1)[0]
+            if k in seen:
+                continue
+            seen.add(k)
+            small = inp
+            if not c.replay_in:
+                try:
+                    small = corr_shrink(c, inp, spec_failure)
+                except Exception as e:  # the shrinker must never hide the failure
+                    c.log("shrink failed: %r" % (e,))
+            r = corr_eval(c, small) if small != inp else None
+            if r is None or all(corr_ok(small, *r)):
+                small, r = inp, (impl, model, spec)
+            toks = [t for t in small.split(" ")[1:]]
+            if k == "symtab":
+                toks = toks[toks.index("F"):]
+            rep = {"kind": ("the real code disagrees with the order-free specification" if spec_failure else
+                            "the real code disagrees with the extracted model of the code (coq/Model/MapWalkKeys.v); the specification is silent or satisfied")
+                           + ": " + what.get(k, k),
+                   "stream": k, "corr_input": small, "readable_input": [unhex(t) if t not in ("F", "Q", "D", "S", "R") else t for t in toks][:80],
+                   "impl": r[0], "model": r[1], "spec": r[2],
+                   "readable_impl": [unhex(t) for t in r[0].split(" ")][:60] if k == "ksort" else r[0],
+                   "readable_spec": [unhex(t) for t in r[2].split(" ")][:60] if k == "ksort" else r[2],
+                   "unshrunk_input": inp if small != inp else None,
+                   "replay": "bin/check C20 --replay <this file>  (runs this one case on the real code and on the model)"}
+            c.violation(rep, no_input=not spec_failure)
+
+
 def run_search(c, extra=()):
+    if not extra:
+        try:
+            os.remove(CORR())
+        except OSError:
+            pass
     cases = c.harness("c20", extra_args=extra, timeout=3000)
     if not cases:
         return None, None
@@ -223,6 +378,7 @@ def run(c):
 
     cases, diffs = run_search(c)
     if cases:
+        correspondence(c)
         groups[:] = c.coverage.get("alias_groups") or []
         regnames[:] = c.coverage.get("registry_names") or []
         absorb(diffs)
@@ -269,7 +425,7 @@ def run(c):
             "replay": "bin/check C20 --replay <this file>  (runs the program in 24 fresh processes x 3 interpreters)",
         }
         c.violation(rep)
-    if not unknown:
+    if not unknown and not any(not ni for _, ni in c.violations):
         if c.proof_break and ok_census:
             c.violation({"kind": "proof obligation no longer checks (a walk over a Go map or a package-level variable of the current source is covered "
                                  "neither by a theorem nor by a listed reason); no differing output found by the repeated runs",
